@@ -1,10 +1,10 @@
 package np
 
 import (
-	"strconv"
 	"go/token"
 	"go/types"
 	"sort"
+	"strconv"
 	"strings"
 
 	"golang.org/x/tools/go/callgraph"
@@ -145,22 +145,22 @@ func lockOpOf(t *Termer, ci ssa.CallInstruction) *lockOp {
 
 // LockAnalysis holds the interprocedural must-lockset results.
 type LockAnalysis struct {
-	P       *Program
-	Entry   map[*ssa.Function]lockset                // held at entry (nil = unreached)
-	At      map[ssa.Instruction]lockset              // held immediately before the instruction
-	funcs   []*ssa.Function
-	inEdges map[*ssa.Function][]*callgraph.Edge
-	Assume  map[string][]heldLock // frozen entry assumptions by function name
+	P          *Program
+	Entry      map[*ssa.Function]lockset   // held at entry (nil = unreached)
+	At         map[ssa.Instruction]lockset // held immediately before the instruction
+	funcs      []*ssa.Function
+	inEdges    map[*ssa.Function][]*callgraph.Edge
+	Assume     map[string][]heldLock // frozen entry assumptions by function name
 	viaWrapper map[*callgraph.Edge]bool
 	// per-function exit summaries (class level): locks still held at every
 	// return that were not held at entry, and locks released that were.
-	Acquired map[*ssa.Function]map[string]bool
-	Released map[*ssa.Function]map[string]bool
-	missing  map[*ssa.Function]map[string]bool
+	Acquired    map[*ssa.Function]map[string]bool
+	Released    map[*ssa.Function]map[string]bool
+	missing     map[*ssa.Function]map[string]bool
 	siteCallees map[ssa.CallInstruction][]*ssa.Function
-	Cut      map[string]string // "caller->callee" edges ignored for held-at-entry, with reason
-	CutUsed  map[string]bool
-	Rounds  int
+	Cut         map[string]string // "caller->callee" edges ignored for held-at-entry, with reason
+	CutUsed     map[string]bool
+	Rounds      int
 }
 
 func applyOp(ls lockset, op *lockOp) lockset {
@@ -208,8 +208,8 @@ func (la *LockAnalysis) analyseFn(fn *ssa.Function, entry lockset) {
 	}
 	t := NewTermer(fn)
 	la.missing[fn] = map[string]bool{}
-	in := make([]lockset, len(fn.Blocks))   // nil = TOP
-	edgeAdd := map[[2]int]*lockOp{}        // trylock success edges
+	in := make([]lockset, len(fn.Blocks)) // nil = TOP
+	edgeAdd := map[[2]int]*lockOp{}       // trylock success edges
 	// pre-compute trylock edges
 	for _, b := range fn.Blocks {
 		if len(b.Instrs) == 0 {
@@ -761,11 +761,11 @@ func callsParamSync(f *ssa.Function) bool {
 // Class. SameObject: the mutex lives in the same struct value as the field,
 // so the held path must be <base>.<mutex> (or "?").
 type Guard struct {
-	Struct     string   // "tcp.endpoint"
+	Struct     string // "tcp.endpoint"
 	Fields     []string
-	Class      string   // "tcp.endpoint.rcvListMu"
+	Class      string // "tcp.endpoint.rcvListMu"
 	SameObject bool
-	ReadOK     bool     // reads without the lock are tolerated (not used unless stated)
+	ReadOK     bool // reads without the lock are tolerated (not used unless stated)
 }
 
 type Exception struct {
